@@ -48,28 +48,39 @@ class ChunkParser:
             self.chunk = b''
             # Extract following chunk data size
             line, raw = find_http_line(raw)
-            # CRLF not received or Blank line was received.
-            if line is None or line.strip() == b'':
+            if line is None:
+                # CRLF not received
                 self.chunk = raw
                 raw = b''
-            else:
+            elif line.strip() != b'':
                 # chunk-size [ chunk-ext ]
                 self.size = int(line.split(b';', 1)[0].strip(), 16)
                 self.state = chunkParserStates.WAITING_FOR_DATA
+            # else: blank line i.e. CRLF terminating previous
+            # chunk data was received, skip it and continue.
         elif self.state == chunkParserStates.WAITING_FOR_DATA:
             assert self.size is not None
-            remaining = self.size - len(self.chunk)
-            self.chunk += raw[:remaining]
-            raw = raw[remaining:]
-            if len(self.chunk) == self.size:
-                raw = raw[len(CRLF):]
-                self.body += self.chunk
-                if self.size == 0:
-                    self.state = chunkParserStates.COMPLETE
-                else:
-                    self.state = chunkParserStates.WAITING_FOR_SIZE
+            if self.size == 0:
+                # last-chunk was received.  Skip optional trailer
+                # fields until CRLF terminating the body is received.
+                raw = self.chunk + raw
                 self.chunk = b''
-                self.size = None
+                line, raw = find_http_line(raw)
+                if line is None:
+                    self.chunk = raw
+                    raw = b''
+                elif line == b'':
+                    self.state = chunkParserStates.COMPLETE
+                    self.size = None
+            else:
+                remaining = self.size - len(self.chunk)
+                self.chunk += raw[:remaining]
+                raw = raw[remaining:]
+                if len(self.chunk) == self.size:
+                    self.body += self.chunk
+                    self.state = chunkParserStates.WAITING_FOR_SIZE
+                    self.chunk = b''
+                    self.size = None
         return len(raw) > 0, memoryview(raw)
 
     @staticmethod
